@@ -137,7 +137,7 @@ func Main(t *testing.T, prop string) {
 		}
 		if full {
 			coq = append(coq, CoqCase(cs, obs))
-		} else {
+		} else if !cs.NoModel {
 			coq = append(coq, CoqDCase(cs, obs))
 		}
 		if os.Getenv("FLOODNET_DUMP") != "" {
@@ -205,6 +205,10 @@ func Main(t *testing.T, prop string) {
 				}
 			}
 			c.Res.Extra["exhaustive"] = "all connected labelled topologies on 2..5 nodes (one seeded schedule each)"
+		}
+		for _, w := range LateWitnesses(prop) {
+			one(w, nil)
+			c.Count("late-witness")
 		}
 		if prop == "C11" {
 			stress(c.N(6000, 30000))
